@@ -3,14 +3,18 @@ package c09
 import (
 	"fmt"
 	"os"
+	"runtime/debug"
 	"testing"
 
 	"verif/internal/harness"
 )
 
 func TestProps(t *testing.T) {
+	// The types of this check nest a handful of levels: 64 MiB of stack is ample, and a runaway recursion over
+	// a self-referential type dies in a fraction of a second instead of after eating 1 GiB.
+	debug.SetMaxStack(64 << 20)
 	selfTest(t)
-	harness.Main(t, "C09", Values, Bytes)
+	harness.Main(t, "C09", Values, Bytes, Static)
 	if os.Getenv("VERIF_C09_DEBUG") != "" {
 		fmt.Printf("C09-DEBUG max alloc/bound: unmarshal %.3f marshal %.3f\n", debugMaxU, debugMaxM)
 	}
